@@ -2,7 +2,7 @@
 META = {
     "level": "exploration",
     "technique": "history + ledger model on the real StorageServer.allocate_buckets / BucketWriter against a simulated disk placed behind os.statvfs as seen by allmydata.util.fileutil",
-    "text": "Drives the real StorageServer (allocate_buckets, BucketWriter.write/close/abort, 30-minute timeout under the virtual clock) against a simulated disk of random capacity with random reserved_space, root-only reserve and read-only flag, in three disk-statistics models crossed with read-only yes/no and reserved_space 0/non-zero (statistics available; no disk-statistics API = os.statvfs raises AttributeError so get_available_space is None; the OS call fails with OSError), servers optionally started on a directory that already holds shares; fileutil.get_disk_stats/get_available_space stay the real code (only os.statvfs is substituted; used bytes = bytes really materialised below the storage dir, sparse incoming files counted by what was written). At every allocate_buckets the oracle computes, independently, free space before the call, and demands: sum of sizes of newly granted writers + sizes of uploads still open + reserved_space <= free space (none granted when that budget is <= 0); a read-only server must grant nothing in every disk model; writable servers that cannot learn their free space are generated but not judged (the statement gives no bound); after every operation allocated_size() must equal the sum of sizes of the open uploads of the ledger model.",
+    "text": "Drives the real StorageServer (allocate_buckets, BucketWriter.write/close/abort, 30-minute timeout under the virtual clock) directly and through the Foolscap front end (FoolscapStorageServer.remote_allocate_buckets with a broker-like canary, FoolscapBucketWriter.remote_write/close/abort, connection loss with several shares of one request still open) against a simulated disk of random capacity with random reserved_space, root-only reserve and read-only flag, in three disk-statistics models crossed with read-only yes/no and reserved_space 0/non-zero (statistics available; no disk-statistics API = os.statvfs raises AttributeError so get_available_space is None; the OS call fails with OSError), servers optionally started on a directory that already holds shares; fileutil.get_disk_stats/get_available_space stay the real code (only os.statvfs is substituted; used bytes = bytes really materialised below the storage dir, sparse incoming files counted by what was written). At every allocate_buckets the oracle computes, independently, free space before the call, and demands: sum of sizes of newly granted writers + sizes of uploads still open + reserved_space <= free space (none granted when that budget is <= 0); a read-only server must grant nothing in every disk model; writable servers that cannot learn their free space are generated but not judged (the statement gives no bound); after every operation allocated_size() must equal the sum of sizes of the open uploads of the ledger model.",
     "note": "Trusts the SimDisk accounting (st_size of files, written bytes for sparse incoming files) and the ledger model; per-share container overhead (12-byte header, 72-byte leases) is not part of a share's 'reserved size' in the statement and is not charged by the oracle. Upload timeout assumed to be 30 min of inactivity, judged only >1 s away from it.",
 }
 LEVEL = "exploration"
@@ -38,10 +38,22 @@ class ModalDisk(S.SimDisk):
 
 
 class W(object):
-    def __init__(self, si, sh, size, writer, now):
+    """one open upload; ``writer`` is a BucketWriter (direct API) or a FoolscapBucketWriter (front end)"""
+
+    def __init__(self, si, sh, size, writer, now, canary=None, req=None):
         self.si, self.sh, self.size, self.writer = si, sh, size, writer
         self.written = 0
         self.last_any = now
+        self.canary, self.req = canary, req      # client connection / allocation request it came from
+
+    def write(self, off, data):
+        return self.writer.remote_write(off, data) if self.canary is not None else self.writer.write(off, data)
+
+    def close(self):
+        return self.writer.remote_close() if self.canary is not None else self.writer.close()
+
+    def abort(self):
+        return self.writer.remote_abort() if self.canary is not None else self.writer.abort()
 
 
 def run(ck):
@@ -76,14 +88,15 @@ def run(ck):
                 type(e).__name__, e, os.path.basename(tb.filename), tb.lineno), {"case": ci})
         finally:
             case.close()
-    for m in ("allocation-within-budget", "ledger", "readonly-grants-none", "readonly-grants-none:stats",
+    for m in ("allocation-within-budget", "ledger", "disconnect-releases", "readonly-grants-none", "readonly-grants-none:stats",
               "readonly-grants-none:noapi", "readonly-grants-none:oserror"):
         ck.require_monitor(m)
     for r in ("granted", "refused-no-space", "partially-granted", "budget-exactly-met", "budget-exceeded-by-1-refused",
               "open-uploads-counted", "reserved-space-binding", "released-by-close", "released-by-abort",
               "released-by-timeout", "readonly-server", "multi-share-request", "regrant-after-release",
               "readonly-holding-shares", "readonly-reserved-0", "readonly-reserved-nonzero", "writable-noapi-grants",
-              "writable-oserror"):
+              "writable-oserror", "foolscap-front-end", "released-by-disconnect",
+              "disconnect-with-several-open-shares-of-one-request"):
         ck.require_reach(r)
     ck.exhaustive = False
 
@@ -113,6 +126,9 @@ def _one_case(ck, rng, case, total, root_reserve, reserved, readonly, mode):
     S.install_disk(disk)
     case.disk = disk
     ss = case.ss = S.make_server(case.tmp, nodeid=case.nodeid, reserved_space=reserved, readonly_storage=readonly)
+    from allmydata.storage.server import FoolscapStorageServer
+    fss = FoolscapStorageServer(ss)
+    canaries = [S.Canary(), S.Canary()]
     refused_once = [False]
 
     def now():
@@ -157,8 +173,14 @@ def _one_case(ck, rng, case, total, root_reserve, reserved, readonly, mode):
         # one client re-uses its lease secrets for a storage index (renewal needs no space);
         # now and then another client shows up (a new 72-byte lease on every held share)
         rs, cs = client_secrets[si] if rng.random() < .8 else (S.rand_bytes(rng, 32), S.rand_bytes(rng, 32))
+        canary = rng.choice(canaries) if rng.random() < .45 else None
         try:
-            already, writers = ss.allocate_buckets(si, rs, cs, sharenums, size)
+            if canary is None:
+                already, writers = ss.allocate_buckets(si, rs, cs, sharenums, size)
+            else:
+                # the Foolscap front end: uploads live as long as the client's connection (canary)
+                ck.hit("foolscap-front-end")
+                already, writers = fss.remote_allocate_buckets(si, rs, cs, sharenums, size, canary)
         except NoSpace:
             # renewing the lease on a share the server already holds needs 72 bytes it does not have;
             # the call fails as a whole before any writer exists: nothing accepted (ledger() checks that)
@@ -231,7 +253,7 @@ def _one_case(ck, rng, case, total, root_reserve, reserved, readonly, mode):
             if not readonly and (len(granted) + 1) * size <= b:
                 ck.observe("refused-although-within-budget")
         for sh in granted:
-            opened[(si, sh)] = W(si, sh, size, writers[sh], now())
+            opened[(si, sh)] = W(si, sh, size, writers[sh], now(), canary, len(history))
         ck.case("allocate", key=(repr(config), len(history), repr(history[-1])), nontrivial=bool(new), sample=req)
 
     def pick():
@@ -247,7 +269,7 @@ def _one_case(ck, rng, case, total, root_reserve, reserved, readonly, mode):
             n = w.size - w.written
         history.append(("write", sis.index(w.si), w.sh, w.written, n))
         w.last_any = now()
-        w.writer.write(w.written, S.rand_bytes(rng, n))
+        w.write(w.written, S.rand_bytes(rng, n))
         w.written += n
         disk.sparse[case.incoming_path(w.si, w.sh)] = 84 + w.written
 
@@ -260,7 +282,7 @@ def _one_case(ck, rng, case, total, root_reserve, reserved, readonly, mode):
         if w is None:
             return do_allocate()
         history.append(("close", sis.index(w.si), w.sh, "%d/%d written" % (w.written, w.size)))
-        w.writer.close()
+        w.close()
         release(w)
         final.add((w.si, w.sh))
         ck.hit("released-by-close")
@@ -270,9 +292,33 @@ def _one_case(ck, rng, case, total, root_reserve, reserved, readonly, mode):
         if w is None:
             return do_allocate()
         history.append(("abort", sis.index(w.si), w.sh))
-        w.writer.abort()
+        w.abort()
         release(w)
         ck.hit("released-by-abort")
+
+    def do_disconnect():
+        # the client's connection is lost: every upload it still has open is abandoned and, per the statement,
+        # its reservation must be released ("...released when the upload completes or is aborted")
+        cands = [c for c in canaries if any(w.canary is c for w in opened.values())]
+        if not cands:
+            return do_allocate()
+        c = rng.choice(cands)
+        victims = sorted([w for w in opened.values() if w.canary is c], key=lambda w: (sis.index(w.si), w.sh))
+        per_req = {}
+        for w in victims:
+            per_req[w.req] = per_req.get(w.req, 0) + 1
+        history.append(("disconnect", canaries.index(c), [(sis.index(w.si), w.sh, w.size) for w in victims]))
+        c.disconnect()
+        for w in victims:
+            release(w)
+        ck.hit("released-by-disconnect", len(victims))
+        if max(per_req.values()) >= 2:
+            ck.hit("disconnect-with-several-open-shares-of-one-request")
+        canaries[canaries.index(c)] = S.Canary()      # the client reconnects
+        ck.mon("disconnect-releases")
+        left = [(sis.index(w.si), w.sh) for w in victims if os.path.exists(case.incoming_path(w.si, w.sh))]
+        if left:
+            viol("disconnect-leaves-upload-open", "connection lost but upload(s) %r still have their incoming file" % (left,))
 
     def do_advance():
         dt = rng.choice([1, 600, 1700, 1799, 1801, 1900, 4000])
@@ -293,7 +339,7 @@ def _one_case(ck, rng, case, total, root_reserve, reserved, readonly, mode):
                 if not alive:
                     release(w)
 
-    table = [do_allocate] * 38 + [do_write] * 28 + [do_close] * 12 + [do_abort] * 10 + [do_advance] * 8
+    table = [do_allocate] * 38 + [do_write] * 28 + [do_close] * 12 + [do_abort] * 9 + [do_advance] * 8 + [do_disconnect] * 6
     try:
         ledger("start")
         do_allocate()
